@@ -105,8 +105,8 @@ def fill_ops(r, scripts, big=False):
     if r.chance(1, 2): ops.append(f"dir {r.range(1, 4)}")
     if r.chance(1, 2): ops.append(f"script {r.choice(scripts)}")
     if r.chance(1, 3): ops.append("lang x" + r.choice(LANGS).encode().hex())
-    ops.append(f"flags {r.choice(FLAGS)}")
-    ops.append(f"level {r.below(3)}")
+    ops.append(f"flags {r.choice(FLAGS)}")            # flags survive clear() by design: a request always states them
+    if r.chance(1, 2): ops.append(f"level {r.below(3)}")
     if r.chance(1, 8): ops.append(f"nfvs {r.below(5)}")
     return ops
 
